@@ -128,20 +128,43 @@ package dnssec
 //@   assert at call middleware/resolver/dnssec.closestEncloserFromNSEC$1#1: arg0 == nsec.Hdr.Name
 //@   assert at call middleware/resolver/dnssec.closestEncloserFromNSEC$1#2: arg0 == nsec.NextDomain
 //@
-//@ # NXDOMAIN from NSEC: success only with an NSEC covering the (DNAME-substituted) query name AND, unless the closest
-//@ # encloser is the root, an NSEC covering the wildcard at the closest encloser derived from that covering record
+//@ # NXDOMAIN from NSEC (RFC 4035 5.4, RFC 4592 2.2.2, RFC 6840 4.1, RFC 6672 5.3.2). Success needs ALL of:
+//@ #  - an NSEC covering the (DNAME-substituted) query name,
+//@ #  - whose next name does NOT lie below the query name (otherwise the query name is an empty non-terminal: it exists),
+//@ #  - no NSEC in the set owned by a PROPER ANCESTOR of the query name that is a delegation point (NS without SOA) or
+//@ #    owns a DNAME (such a record comes from a zone that is not authoritative for the name) - every record is examined,
+//@ #  - and, unless the closest encloser is the root, an NSEC covering the wildcard at the closest encloser derived
+//@ #    from the covering record.
+//@ func nsecProperAncestor
+//@   abstract
+//@   nosafety all pre
+//@   assert at call internal/dnsutil.NameInZone#1: arg0 == lastret("strings.ToLower#2") && arg1 == lastret("strings.ToLower#1")
+//@   assert at call strings.ToLower#1: arg0 == lastret("github.com/miekg/dns.Fqdn#1")
+//@   assert at call strings.ToLower#2: arg0 == lastret("github.com/miekg/dns.Fqdn#2")
+//@   assert at call github.com/miekg/dns.Fqdn#1: arg0 == ancestor
+//@   assert at call github.com/miekg/dns.Fqdn#2: arg0 == name
+//@   assert at return#1: result ==> lastret("strings.ToLower#1") != lastret("strings.ToLower#2") && lastret("internal/dnsutil.NameInZone")
+//@
 //@ func VerifyNameErrorNSEC
 //@   abstract
 //@   nosafety all pre
+//@   loop 2 invariant calls("middleware/resolver/dnssec.nsecProperAncestor") == 1 + rangeidx && 0 <= rangeidx
 //@   assert at call middleware/resolver/dnssec.nsecCovers#1: arg2 == qname
-//@   assert at call middleware/resolver/dnssec.closestEncloserFromNSEC#1: lastret("middleware/resolver/dnssec.nsecCovers#1") && arg0 == qname && arg1 == covering
+//@   assert at call middleware/resolver/dnssec.nsecProperAncestor#1: lastret("middleware/resolver/dnssec.nsecCovers#1") && arg0 == qname && arg1 == covering.NextDomain && calls("middleware/resolver/dnssec.nsecProperAncestor") == 0
+//@   assert at call middleware/resolver/dnssec.nsecProperAncestor#2: arg0 == nsec.Hdr.Name && arg1 == qname && !lastret("middleware/resolver/dnssec.nsecProperAncestor#1")
+//@   assert at call middleware/resolver/dnssec.typesSet#1: lastret("middleware/resolver/dnssec.nsecProperAncestor#2") && arg0 == nsec.TypeBitMap && len(arg1) == 1 && arg1[0] == dns.TypeNS
+//@   assert at call middleware/resolver/dnssec.typesSet#2: lastret("middleware/resolver/dnssec.typesSet#1") && arg0 == nsec.TypeBitMap && len(arg1) == 1 && arg1[0] == dns.TypeSOA
+//@   assert at call middleware/resolver/dnssec.typesSet#3: lastret("middleware/resolver/dnssec.nsecProperAncestor#2") && arg0 == nsec.TypeBitMap && len(arg1) == 1 && arg1[0] == dns.TypeDNAME
+//@   assert at call middleware/resolver/dnssec.closestEncloserFromNSEC#1: lastret("middleware/resolver/dnssec.nsecCovers#1") && arg0 == qname && arg1 == covering && !lastret("middleware/resolver/dnssec.nsecProperAncestor#1") && calls("middleware/resolver/dnssec.nsecProperAncestor") == 1 + len(nsecSet)
 //@   assert at call middleware/resolver/dnssec.nsecCovers#2: arg2 == wildcard
-//@   assert at return#4: lastret("middleware/resolver/dnssec.nsecCovers#1") && result == nil && lastret("middleware/resolver/dnssec.closestEncloserFromNSEC") == "."
-//@   assert at return#5: lastret("middleware/resolver/dnssec.nsecCovers#1") && lastret("middleware/resolver/dnssec.nsecCovers#2") && result == nil
+//@   assert at return#6: lastret("middleware/resolver/dnssec.nsecCovers#1") && result == nil && lastret("middleware/resolver/dnssec.closestEncloserFromNSEC") == "."
+//@   assert at return#7: lastret("middleware/resolver/dnssec.nsecCovers#1") && lastret("middleware/resolver/dnssec.nsecCovers#2") && result == nil
 //@   assert at return#1: result != nil
 //@   assert at return#2: result != nil
-//@   assert at return#3: result != nil
-//@   assert at return#6: result != nil
+//@   assert at return#3: result != nil && lastret("middleware/resolver/dnssec.nsecProperAncestor#1")
+//@   assert at return#4: result != nil
+//@   assert at return#5: result != nil
+//@   assert at return#8: result != nil
 //@
 //@ # insecure delegation from NSEC: success only on an NSEC owned by the delegation name whose bitmap has NS and neither DS nor SOA
 //@ func VerifyDelegationNSEC
